@@ -465,12 +465,27 @@ def gen_program(rng, n, length, integer_only, allow_custom=True, forced=()):
 def build_circuit(steps, requires_grad=False, resolve_placeholders=True):
     """the program on the real numqi.sim.Circuit.  Every gate-creating step remembers the gate object it produced, so that a
     later `('reuse', k, …)` step can place the *same object* at another index tuple (`append_gate` re-use)."""
-    import numqi
-    circ = numqi.sim.Circuit(default_requires_grad=requires_grad)
-    registered = set()
-    placeholders = {}
-    objs = []
+    b = CircuitBuilder(requires_grad)
     for st in steps:
+        b.do(st)
+    if b.placeholders and resolve_placeholders:
+        b.circ.setP(**b.placeholders)   # note: this turns the placeholder gates into ordinary gates with concrete angles
+    return b.circ
+
+
+class CircuitBuilder:
+    """the real numqi.sim.Circuit driven one step at a time (also used by the query/mutate/query histories)"""
+
+    def __init__(self, requires_grad=False):
+        import numqi
+        self.circ = numqi.sim.Circuit(default_requires_grad=requires_grad)
+        self.registered = set()
+        self.placeholders = {}
+        self.objs = []
+
+    def do(self, st):
+        import numqi
+        circ, registered, placeholders, objs = self.circ, self.registered, self.placeholders, self.objs
         name = st[0]
         obj = None
         if name in ('X', 'Y', 'Z', 'S', 'H', 'T', 'Swap'):
@@ -537,9 +552,7 @@ def build_circuit(steps, requires_grad=False, resolve_placeholders=True):
         else:
             raise RuntimeError('unknown step ' + name)
         objs.append(obj)
-    if placeholders and resolve_placeholders:
-        circ.setP(**placeholders)       # note: this turns the placeholder gates into ordinary gates with concrete angles
-    return circ
+        return obj
 
 
 def program_semantics(steps):
@@ -797,6 +810,169 @@ def circuit_cases(ctx, rng):
         sem = program_semantics(steps)
         cases += program_cases(rng, steps, sem, n0, n0, ('custom-reuse', it), with_indices=True)
     return cases
+
+
+# ---------------------------------------------------------------------------
+# query / mutate / query histories on one Circuit object
+# ---------------------------------------------------------------------------
+
+SESSION_PARAM = ['rx', 'ry', 'rz', 'rzz', 'u3', 'crx', 'cry', 'crz', 'cu3']
+
+
+def new_args_like(rng, st):
+    k = len(st[-1])
+    return tuple(float(x) for x in rng.uniform(-4, 4, size=k))
+
+
+def gen_session(rng):
+    """actions on one circuit: ('step', st) append / re-use / shift; ('set_args', k, args) on the parametrised gate created by
+    step k; ('place', st) a placeholder gate followed at once by circ.setP (the only moment a placeholder takes a value);
+    ('fresh', {k: args}) new angles through CircuitTorchWrapper.fresh_gate_parameter.  A query (to_unitary + apply_state on the
+    basis) follows every action."""
+    width = int(rng.integers(1, 4))
+    actions, steps = [], []
+    def params():
+        return [i for i, st in enumerate(steps) if base_of(st[0]) in SESSION_PARAM]
+    st = make_step(rng, width, SESSION_PARAM[int(rng.integers(0, len(SESSION_PARAM)))]) or make_step(rng, width, 'rx')
+    actions.append(('step', st)); steps.append(st)
+    for _ in range(int(rng.integers(3, 8))):
+        r = int(rng.integers(0, 12))
+        if r <= 1:
+            nm = (SESSION_PARAM + ['H', 'X', 'S', 'cnot', 'Swap', 'single', 'append_u', 'csingle'])[int(rng.integers(0, len(SESSION_PARAM) + 8))]
+            st = make_step(rng, width, nm) or make_step(rng, width, 'ry')
+            actions.append(('step', st)); steps.append(st)
+        elif r <= 5 and params():
+            k = params()[int(rng.integers(0, len(params())))]
+            a = new_args_like(rng, steps[k])
+            actions.append(('set_args', k, a)); steps[k] = steps[k][:-1] + (a,)
+        elif r == 6 and params():
+            k = params()[int(rng.integers(0, len(params())))]
+            e = step_semantics(steps[k])[0]
+            if e[0] == 'u' and len(e[2]) <= width:
+                st = ('reuse', k, pick_targets(rng, width, len(e[2])))
+            elif e[0] == 'c' and len(e[2]) + len(e[3]) <= width:
+                q = pick_targets(rng, width, len(e[2]) + len(e[3])); st = ('reuse', k, q[:len(e[2])], q[len(e[2]):])
+            else:
+                continue
+            actions.append(('step', st)); steps.append(st)
+        elif r == 7:
+            lo = -program_min_index(program_semantics(steps)); hi = 4 - width
+            d = int(rng.integers(lo, hi + 1)) if hi >= lo else 0
+            if d != 0:
+                actions.append(('step', ('shift', d))); steps.append(('shift', d)); width += d
+        elif r == 8:
+            st = make_step(rng, width, ['rxP', 'ryP'][int(rng.integers(0, 2))])
+            actions.append(('place', st)); steps.append(st)
+        elif r >= 9 and params():
+            ks = [k for k in params() if rng.integers(0, 2)] or params()[:1]
+            new = {k: new_args_like(rng, steps[k]) for k in ks}
+            actions.append(('fresh', new))
+            for k, a in new.items():
+                steps[k] = steps[k][:-1] + (a,)
+    return actions
+
+
+def run_session(actions):
+    """execute the actions on the real objects; after every action record (intended step list, to_unitary(), images of the basis
+    under apply_state) — or the exception the query raised"""
+    import numqi, torch
+    b = CircuitBuilder(requires_grad=True)
+    steps, rec = [], []
+    for act in actions:
+        try:
+            if act[0] == 'step':
+                b.do(act[1]); steps.append(act[1])
+            elif act[0] == 'place':
+                b.do(act[1]); steps.append(act[1])
+                key = f'p{len(b.placeholders) - 1}'
+                b.circ.setP(**{key: b.placeholders[key]})
+            elif act[0] == 'set_args':
+                b.objs[act[1]].set_args(act[2]); steps[act[1]] = steps[act[1]][:-1] + (tuple(act[2]),)
+            elif act[0] == 'fresh':
+                w = numqi.sim.CircuitTorchWrapper(b.circ)
+                with torch.no_grad():
+                    for name, par in w.theta.items():
+                        for r in range(par.shape[0]):
+                            obj = b.circ.gate_index_list[w.ind_theta_to_ind_gate[name][r][0]][0]
+                            k = [i for i, o in enumerate(b.objs) if o is obj]
+                            if k and k[0] in act[1]:
+                                par[r] = torch.tensor(act[1][k[0]], dtype=torch.float64)
+                w.fresh_gate_parameter()
+                for k, a in act[1].items():
+                    steps[k] = steps[k][:-1] + (tuple(a),)
+            U = b.circ.to_unitary()
+            A = np.stack([b.circ.apply_state(np.eye(U.shape[0], dtype=np.complex128)[j]) for j in range(U.shape[0])], axis=1)
+            rec.append((list(steps), U, A))
+        except (AssertionError, ValueError, TypeError, IndexError, KeyError, RuntimeError, AttributeError) as e:
+            rec.append((list(steps), 'error:' + type(e).__name__, None))
+    return rec
+
+
+def check_history_point(v, A, want):
+    """'' if the recorded query is right, else what is wrong"""
+    if isinstance(v, str):
+        return f'to_unitary()/apply_state raised ({v})'
+    if np.asarray(v).size != np.asarray(want).size:
+        return f'to_unitary() has {int(round(np.asarray(v)[0].real))} qubits, the circuit has {int(round(np.asarray(want)[0].real))}'
+    d = int(round(math.sqrt(np.asarray(v).size - 1)))
+    U = np.asarray(v)[1:].reshape(d, d); W = np.asarray(want)[1:].reshape(d, d)
+    if not close(U, W):
+        return 'to_unitary() is not the ordered product of the embedded operators of the gates as they are now'
+    if A is not None and not close(A, U):
+        return 'apply_state on the basis vectors differs from to_unitary()'
+    return ''
+
+
+def describe_actions(actions):
+    out = []
+    for a in actions:
+        if a[0] in ('step', 'place'):
+            out.append([a[0], describe([a[1]])[0]])
+        elif a[0] == 'set_args':
+            out.append(['set_args', a[1], list(a[2])])
+        else:
+            out.append(['fresh', {int(k): list(v) for k, v in a[1].items()}])
+    return out
+
+
+def actions_from_desc(desc):
+    out = []
+    for a in desc:
+        if a[0] in ('step', 'place'):
+            out.append((a[0], _steps_from_desc([a[1]])[0]))
+        elif a[0] == 'set_args':
+            out.append(('set_args', a[1], tuple(a[2])))
+        else:
+            out.append(('fresh', {int(k): tuple(v) for k, v in a[1].items()}))
+    return out
+
+
+def session_cases(ctx, rng):
+    cases = []
+    for si in range(40 if ctx.quick() else 300):
+        actions = gen_session(rng)
+        rec = run_session(actions)
+        desc = describe_actions(actions)
+        for qi, (steps, U, A) in enumerate(rec):
+            sem = program_semantics(steps)
+            width = program_width(sem)
+            if width == 0 or width > 4:
+                continue
+            is_int = program_is_integer(sem)
+            enc = enc_z if is_int else enc_q
+            text = program_text(sem, enc)
+            val = U if isinstance(U, str) else np.concatenate([[U.shape[0].bit_length() - 1], U.reshape(-1)])
+            c = Case(f'C03 unitary {"Z" if is_int else "Q"} {text}', (lambda val=val: val),
+                     (lambda sem=sem, width=width: np.concatenate([[width], oracle_program_matrix(sem, width).reshape(-1)])),
+                     approx=not is_int, key='Circuit.history', ntkey=('history-query', si, qi, actions[qi][0]),
+                     replay=dict(fn='Circuit.history', actions=repr(desc), step=qi, action=repr(desc[qi])))
+            c.soft = False
+            cases.append(c)
+            _SESSION_EXTRA[id(c)] = (si, qi, A)
+    return cases
+
+
+_SESSION_EXTRA = {}
 
 
 def intended_index_list(sem):
@@ -1237,7 +1413,7 @@ def all_cases(ctx):
     if 'cases' not in _CACHE:
         rng = np.random.default_rng(ctx.np_seed)
         cases = gate_cases(ctx, rng) + embed_cases(ctx, rng) + dm_cases(ctx, rng) + inner_cases(ctx, rng) + prob_cases(ctx, rng) \
-            + circuit_cases(ctx, rng) + malformed_cases(ctx, rng) + slice_cases(ctx, rng) + vocabulary_cases(ctx, rng) + derivative_cases(ctx, rng)
+            + circuit_cases(ctx, rng) + malformed_cases(ctx, rng) + slice_cases(ctx, rng) + vocabulary_cases(ctx, rng) + derivative_cases(ctx, rng) + session_cases(ctx, rng)
         for c in cases:
             if c.soft:
                 try:
@@ -1325,6 +1501,7 @@ def probe(ctx):
     """direct, model-independent evaluation: every routine against the np.kron + axis-permutation oracle"""
     import numqi
     cases = all_cases(ctx)
+    failed_sessions = set()
     for c in cases:
         if c.oracle is None:
             continue
@@ -1332,6 +1509,19 @@ def probe(ctx):
         v = c.value
         if isinstance(v, str):
             ctx.fail(c.key + ':raises', f'{c.key} raised on a valid input', c.replay)
+            continue
+        if c.key == 'Circuit.history':
+            si, qi, A = _SESSION_EXTRA[id(c)]
+            if si in failed_sessions:
+                continue       # only the first failing step of a history is reported
+            bad = check_history_point(v, A, want)
+            if bad:
+                failed_sessions.add(si)
+                ctx.fail('Circuit.history' if 'raised' not in bad else 'Circuit.history:raises',
+                         f'history of one Circuit object: after step {qi} ({c.replay["action"][:120]}) {bad}',
+                         dict(c.replay, first_failing_step=qi))
+            else:
+                ctx.probe_ok(('probe',) + tuple(c.ntkey))
             continue
         if c.key == 'Circuit.gate_index_list':
             if v != want:
@@ -1381,6 +1571,18 @@ def search(ctx, hints):
     import numqi
     st = numqi.sim.state
     seen = 0
+    by_op = {c.op[:4000]: c for c in _CACHE.get('cases', []) if c.key == 'Circuit.history'}
+    done = set()
+    for d in hints:
+        c = by_op.get(d['op'].rstrip('…')[:4000])
+        if c is None or _SESSION_EXTRA[id(c)][0] in done:
+            continue
+        done.add(_SESSION_EXTRA[id(c)][0])
+        first = replay_history(eval(c.replay['actions'], {'__builtins__': {}}, {}))
+        if first is not None:
+            ctx.fail('Circuit.history', f'history replayed step by step: first failing step {first[0]} ({first[1][:120]}): {first[2]}',
+                     dict(c.replay, first_failing_step=first[0]))
+            return
     for d in hints[:50]:
         t = d['op'].split(' ')
         if len(t) < 5 or t[1] not in ('gate', 'ctrl'):
@@ -1435,6 +1637,23 @@ def _replay_path():
     return sys.argv[sys.argv.index('--replay') + 1] if '--replay' in sys.argv[:-1] else 'recorded-input'
 
 
+def replay_history(desc):
+    """re-run a recorded history step by step; (step, action, what) of the first failing step, or None"""
+    actions = actions_from_desc(desc)
+    rec = run_session(actions)
+    for qi, (steps, U, A) in enumerate(rec):
+        sem = program_semantics(steps)
+        width = program_width(sem)
+        if width == 0:
+            continue
+        want = np.concatenate([[width], oracle_program_matrix(sem, width).reshape(-1)])
+        v = U if isinstance(U, str) else np.concatenate([[U.shape[0].bit_length() - 1], U.reshape(-1)])
+        bad = check_history_point(v, A, want)
+        if bad:
+            return qi, repr(desc[qi]), bad
+    return None
+
+
 def replay(ctx, payload):
     """re-run exactly the recorded input on the real code and compare with the kron oracle"""
     import numqi
@@ -1449,6 +1668,14 @@ def replay(ctx, payload):
             print(f'VIOLATION property=C03 replay={_replay_path()}')
         return 1 if bad else 0
     approx = False
+    if fn == 'Circuit.history':
+        first = replay_history(eval(r['actions'], {'__builtins__': {}}, {}))
+        if first is None:
+            print('replay: the recorded history now agrees with the embedded operators at every step')
+            return 0
+        print(f'replay: history still fails; first failing step {first[0]} ({first[1][:200]}): {first[2]}')
+        print(f'VIOLATION property=C03 replay={_replay_path()}')
+        return 1
     if fn in ('apply_gate', 'apply_control_n_gate') and 'basis_state' in r:
         n, t, c = r['n'], tuple(r['target']), tuple(r['control'])
         k = len(t); U = np.zeros((2 ** k, 2 ** k), dtype=np.complex128); U[tuple(r['op_unit'])] = 1
